@@ -30,7 +30,7 @@ from harness import mesondrv
 
 LEVEL = 'fault_enumeration'
 RULE = ('histories = seeded sequences of 0-3 successful commands (setup / configure -D / setup --reconfigure -D / setup --wipe with '
-        'option values drawn from a small alphabet) on a no-language project with a subproject and an option file (thorough: also a '
+        'option values drawn from a small alphabet; every second history ends with an edit of the option files that changes the defaults of options nobody set) on a no-language project with a subproject and an option file (thorough: also a '
         'C-target variant); X in {setup, setup --reconfigure -Do=new.., setup --wipe, configure -Do=new..} (thorough: also `setup -D` on a '
         'configured dir). For each (history, X) the mutation list M of X is recorded by the crash shim (open-for-write, every write(2) of '
         'Python file objects, replace/rename/unlink/rmdir/mkdir/chmod/utime/fsync/..., outside meson-logs/) and EVERY k in 1..|M| is '
@@ -119,6 +119,9 @@ def gen_cases(seed: int, quick: bool) -> T.List[dict]:
         hist = gen_history(rnd, ln)
         if hi % 2 == 1:
             hist[0][1] = dict(hist[0][1], **{NATIVE_KEY: 'pipe' if hi % 4 == 3 else '1'})
+        else:
+            # the option files were edited after the last command: new defaults for options that keep their old ones
+            hist.append(['edit-defaults', {}])
         for x in xs:
             cases.append({'variant': 'nolang', 'pre_dir': None, 'history': hist,
                           'x': [x, {} if x == 'wipe' else xopts(2)]})
@@ -158,6 +161,8 @@ def argv_for(cmd: str, opts: T.Dict[str, str], B: str, S: str) -> T.List[str]:
         return ['setup', '--wipe'] + d + [B, S]
     if cmd == 'configure':
         return ['configure'] + d + [B]
+    if cmd == 'edit-defaults':
+        return ['(edit of the option files: new defaults for m, n, sp:so)']      # for display only; Site.run_history applies it
     raise HarnessError(f'unknown command {cmd}')
 
 
@@ -296,6 +301,19 @@ class Site:
 
     def run_history(self, inproc: bool) -> None:
         for cmd, opts in self.case['history']:
+            if cmd == 'edit-defaults':
+                # not a command: the project's option files change the DEFAULT of options nobody has set (C08: such an option keeps
+                # the default it was created with until a --wipe).  Every value of the pre-X state is still read from the directory.
+                for rel, old, new in (('meson.options', "value: 'md'", "value: 'md-edited'"), ('meson.options', 'value: 3)', 'value: 5)'),
+                                      ('subprojects/sp/meson.options', "value: 'sd'", "value: 'sd-edited'")):
+                    path = os.path.join(self.S, rel)
+                    with open(path, encoding='utf-8') as f:
+                        text = f.read()
+                    if old not in text:
+                        raise HarnessError(f'edit-defaults: {old!r} not in {rel}')
+                    with open(path, 'w', encoding='utf-8') as f:
+                        f.write(text.replace(old, new))
+                continue
             args = argv_for(cmd, opts, self.B, self.S)
             piped = opts.get(NATIVE_KEY) == 'pipe'
             if piped:
@@ -529,7 +547,7 @@ def kill_and_judge(site: Site, M: T.List[list], k: int, mode: str, pre: dict, po
         ev.event('result:' + label)
     what = f'kill {"in the middle of" if mode == "torn" else "before"} mutation {k}/{len(M)} `{op} {path}`' \
            f' of `meson {" ".join(argv_for(case["x"][0], case["x"][1], "B", "S"))}`' \
-           f' (history: {[" ".join(argv_for(c, o, "B", "S")) for c, o in case["history"]] or case["pre_dir"]}): '
+           f' (history: {[(c if c == "edit-defaults" else " ".join(argv_for(c, o, "B", "S"))) for c, o in case["history"]] or case["pre_dir"]}): '
     return [Failure(sig, full, what + msg) for sig, msg in verdicts]
 
 
